@@ -2,7 +2,12 @@
 (***************************************************************************)
 (* Behaviour generator for the C20 conformance driver (harness/c20).       *)
 (* A history is the sequence of operations on ONE Fetcher:                 *)
-(*   [op |-> "fetch", alpn, recs, cut, stall, stallw]  a FetchData call     *)
+(*   [op |-> "fetch", via, alpn, recs, cut, stall, stallw]  a FetchData     *)
+(*        call - made directly (via "fetch") or by the NTP client that is   *)
+(*        about to send a request: client.MeasureClockOffsetIP /           *)
+(*        MeasureClockOffsetSCION with the configured remote address (via  *)
+(*        "measure"; where the request goes is NtsKe's dest); "any": left  *)
+(*        to the driver -                                                  *)
 (*        together with the script the peer follows if the call dials      *)
 (*        ("dflt": the model did not dial; the driver keeps a well-formed  *)
 (*        script ready in case the real code does); stallw # "none": after *)
@@ -12,7 +17,9 @@
 (*   [op |-> "store"]                   a StoreCookie call                 *)
 (*   GSpec  exhaustive: every history within the bounds (hist is part of   *)
 (*          the state, so TLC visits every script exactly once)            *)
-(*          (with CONSTRAINT Decorated: only almost-acceptable messages)   *)
+(*          (with CONSTRAINT Decorated: only almost-acceptable messages;   *)
+(*          with CONSTRAINT Naming: acceptable messages that name no       *)
+(*          server / a host / a port / both, in any order and position)    *)
 (*   SSpec  for `tlc -simulate`: random walks through the same actions     *)
 (*          with RandomElement draws biased towards long, well-formed      *)
 (*          messages, so that failures happen late and pools get used up   *)
@@ -21,22 +28,23 @@
 (***************************************************************************)
 EXTENDS NtsKeMC, Json
 
-CONSTANT Tails   \* TRUE: the peer's message may go on after the record at which the client gave up
+CONSTANTS Tails,  \* TRUE: the peer's message may go on after the record at which the client gave up
+          Vias    \* who makes the FetchData calls: subset of {"fetch", "measure", "any"}
 
 VARIABLES hist,   \* the history so far
           pre     \* Fetcher.data and session count before the current / last FetchData call
 
 gvars == <<vars, hist, pre>>
 
-Op(a) == [op |-> "fetch", alpn |-> a, recs |-> << >>, cut |-> "none", stall |-> 0, stallw |-> "none"]
-StoreOp == [op |-> "store", alpn |-> "-", recs |-> << >>, cut |-> "none", stall |-> 0, stallw |-> "none"]
+Op(a, v) == [op |-> "fetch", via |-> v, alpn |-> a, recs |-> << >>, cut |-> "none", stall |-> 0, stallw |-> "none"]
+StoreOp == [op |-> "store", via |-> "-", alpn |-> "-", recs |-> << >>, cut |-> "none", stall |-> 0, stallw |-> "none"]
 Last == Len(hist)
 Snap == [data |-> data, sess |-> sess]
 
 GInit == Init /\ hist = << >> /\ pre = [data |-> Data0, sess |-> 0]
 
-GCached  == FetchCached /\ hist' = Append(hist, Op("dflt")) /\ pre' = Snap
-GDial(a) == Dial(a) /\ hist' = Append(hist, Op(a)) /\ pre' = Snap
+GCached  == FetchCached /\ pre' = Snap /\ \E v \in Vias : hist' = Append(hist, Op("dflt", v))
+GDial(a) == Dial(a) /\ pre' = Snap /\ \E v \in Vias : hist' = Append(hist, Op(a, v))
 GLocal   == (CheckAlpn \/ SendRequest \/ Export \/ Finish) /\ UNCHANGED <<hist, pre>>
 GClose   == PeerClose /\ UNCHANGED <<hist, pre>>
 GRead(r) == ReadRecord(r) /\ hist' = [hist EXCEPT ![Last].recs = Append(@, r)] /\ UNCHANGED pre
@@ -138,6 +146,26 @@ Decorated ==
     LET rs == hist[Last].recs
     IN Cardinality({i \in DOMAIN rs : rs[i] \notin Plain}) <= 1
 
+\* --------------------------------------------------------------- naming family
+\* state constraint for the exhaustive generator: messages made of one AEAD(15)
+\* record, one or two cookie records and at most MaxNaming Server / Port records,
+\* in any order (what the NTP client that made the call does with the endpoint
+\* named - or not named - by an exchange that succeeds); emitted are the
+\* histories all of whose exchanges are of that kind (the others are prefixes)
+NamingRecs == {"sA", "sB", "sH", "pA", "pB"}
+MaxNaming == 2
+MaxNaming3 == 3
+Occ(rs, S) == Cardinality({i \in DOMAIN rs : rs[i] \in S})
+Naming ==
+  \A j \in DOMAIN hist :
+    LET rs == hist[j].recs
+    IN /\ \A i \in DOMAIN rs : rs[i] \in Plain \cup NamingRecs
+       /\ Occ(rs, NamingRecs) <= MaxNaming /\ Occ(rs, {"a15"}) <= 1 /\ Occ(rs, {"ck"}) <= 2
+Acceptable(rs) == Occ(rs, {"a15"}) = 1 /\ Occ(rs, {"ck"}) >= 1 /\ Occ(rs, {"eom"}) = 1
+\* (constraint for histories of several exchanges: only acceptable ones are followed by another)
+NamingChain == \A j \in 1 .. Len(hist) - 1 : hist[j].alpn = "dflt" \/ Acceptable(hist[j].recs)
+AllAcceptable == \A j \in DOMAIN hist : hist[j].alpn = "dflt" \/ Acceptable(hist[j].recs)
+
 \* ------------------------------------------------------------- emitters
 \* no further FetchData call is possible within the bounds
 Done == /\ Quiet /\ hist # << >>
@@ -145,6 +173,8 @@ Done == /\ Quiet /\ hist # << >>
 Emit == Done => PrintT(<<"CASE", ToJson([h |-> hist])>>)
 \* (TLC evaluates invariants also on the states a CONSTRAINT discards)
 EmitDecorated == (Done /\ Decorated) => PrintT(<<"CASE", ToJson([h |-> hist])>>)
+
+EmitNaming == (Done /\ Naming /\ AllAcceptable) => PrintT(<<"CASE", ToJson([h |-> hist])>>)
 
 \* the stall family: single exchanges in which the peer stalls past the deadline
 EmitStalled == (Done /\ hist[Last].stallw # "none") => PrintT(<<"CASE", ToJson([h |-> hist])>>)
